@@ -23,6 +23,14 @@ static int nthr;
 static uint64_t rng[64];
 static uint64_t trand(int t) { uint64_t& r = rng[t]; r ^= r << 13; r ^= r >> 7; r ^= r << 17; return r * 0x2545F4914F6CDD1Dull; }
 
+// Harness bookkeeping (shadow map, live list, request tables) is shared between the simulated threads and relies on running
+// atomically: worker code holds plain-access decision points off and releases them only around calls into the library.
+#define LIB(expr) ([&]() -> decltype(auto) { vsim_plain_hold(0); struct R_ { ~R_() { vsim_plain_hold(1); } } r_; return (expr); })()
+template <class F> static void par(F f) {
+  vsim_plain_preempt_window(1);
+  galois::on_each([&](unsigned tid, unsigned n) { VsimPlainHold hold; f(tid, n); });
+  vsim_plain_preempt_window(0);
+}
 static void fill(void* p, size_t n, unsigned c, bool sparse) {
   unsigned char* b = (unsigned char*)p;
   if (!sparse) { for (size_t i = 0; i < n; i++) b[i] = (unsigned char)(c + i * 31); return; }
@@ -64,7 +72,7 @@ static void verify_all(const char* what) { for (auto& kv : live) if (!verify((vo
 
 template <class Alloc, class Free>
 static void churn(const char* what, int ops, int free_pct, Alloc al, Free fr) {
-  galois::on_each([&](unsigned tid, unsigned) {
+  par([&](unsigned tid, unsigned) {
     for (int i = 0; i < ops; i++) {
       if ((int)(trand(tid) % 100) < free_pct) { uintptr_t a = pick_live(tid); if (a) { on_free(what, a); fr((void*)a, tid); } }
       else al(tid);
@@ -78,7 +86,7 @@ template <size_t N> struct Blob { unsigned char b[N]; };
 template <size_t N> struct PTS {
   static void run(int tid, int rounds) {
     for (int r = 0; r < rounds; r++) {
-      auto* s = new gsb::PerThreadStorage<Blob<N>>();
+      auto* s = LIB(new gsb::PerThreadStorage<Blob<N>>());
       unsigned c = obs_add(&next_canary, 1u);
       unsigned maxT = gsb::getThreadPool().getMaxThreads();
       std::vector<uintptr_t> mine;
@@ -92,16 +100,18 @@ template <size_t N> struct PTS {
       if (s->getLocal() != s->getRemote(gsb::ThreadPool::getTID())) vsim_fail("c09.pts.local", "getLocal() != getRemote(own tid)");
       for (int y = 0; y < (int)(trand(tid) % 4); y++) vsim_yield();
       for (uintptr_t a : mine) { on_free("PerThreadStorage", a); for (size_t k = 0; k < live_list.size(); k++) if (live_list[k] == a) { live_list[k] = live_list.back(); live_list.pop_back(); break; } }
-      delete s;
+      LIB((delete s, 0));
     }
   }
 };
 
 // ---- scenario 7: type-erased per-thread-storage objects of many size classes --------------------------------------
-struct PObj { void* obj; void (*del)(void*); size_t size; std::vector<uintptr_t> addr; unsigned off; unsigned cls; };
+struct PObj { void* obj; void (*del)(void*); void* (*mov)(void*); size_t size; std::vector<uintptr_t> addr; unsigned off; unsigned cls; };
 template <size_t N> static PObj make_pobj() {
   auto* s = new gsb::PerThreadStorage<Blob<N>>();
   PObj o; o.obj = s; o.del = [](void* q) { delete (gsb::PerThreadStorage<Blob<N>>*)q; }; o.size = N;
+  // move-construct a new owner and destroy the moved-from object: the offset stays in use
+  o.mov = [](void* q) -> void* { auto* old = (gsb::PerThreadStorage<Blob<N>>*)q; auto* nw = new gsb::PerThreadStorage<Blob<N>>(std::move(*old)); delete old; return nw; };
   unsigned maxT = gsb::getThreadPool().getMaxThreads();
   for (unsigned t = 0; t < maxT; t++) o.addr.push_back((uintptr_t)s->getRemote(t));
   return o;
@@ -120,6 +130,7 @@ int main() {
   static const char* sn[] = {"FixedSizeHeap", "Pow_2_BlockHeap", "VariableSizeHeap", "PagePool", "PerThreadStorage", "largeMalloc/LargeArray", "PerThreadStorage-freelist", "PerThreadStorage-history"};
   vsim_note("component", "alloc=%s", sn[scen]);
   vsim_enable_fault(VF_CAS_WEAK, 0.005, 0.1);
+  vsim_enable_fault(VF_PLAIN_PREEMPT, 0.02, 0.6);   // plain shared data of the library (behind locks, in shared helper state) becomes preemptible
   vsim_enable_fault(VF_HUGE_REFUSED, 0.2, 0.9);
   vsim_set_budget(6000000);
   galois::SharedMemSys G;
@@ -138,9 +149,9 @@ int main() {
     size_t s2 = s < 64 ? s + 8 : s / 2;
     std::map<uintptr_t, int> which;
     churn("FixedSizeHeap", ops, free_pct,
-          [&](int tid) { void* p; if (trand(tid) & 1) { p = heap.allocate(s); on_alloc("FixedSizeHeap", p, s, 8, tid); which[(uintptr_t)p] = 0; } else { p = heap2.allocate(s2); on_alloc("FixedSizeHeap", p, s2, 8, tid); which[(uintptr_t)p] = 1; } },
+          [&](int tid) { void* p; if (trand(tid) & 1) { p = LIB(heap.allocate(s)); on_alloc("FixedSizeHeap", p, s, 8, tid); which[(uintptr_t)p] = 0; } else { p = LIB(heap2.allocate(s2)); on_alloc("FixedSizeHeap", p, s2, 8, tid); which[(uintptr_t)p] = 1; } },
           [&](void* p, int) { /* thread-private free lists: the block goes to the freeing thread's list of its size class */
-            int w = which[(uintptr_t)p]; which.erase((uintptr_t)p); if (w) heap2.deallocate(p); else heap.deallocate(p); });
+            int w = which[(uintptr_t)p]; which.erase((uintptr_t)p); if (w) LIB((heap2.deallocate(p), 0)); else LIB((heap.deallocate(p), 0)); });
     break; }
   case 1: {
     auto& ph = *grt::Pow_2_BlockHeap::getInstance();
@@ -148,8 +159,8 @@ int main() {
     vsim_note("plan", "threads=%d ops=%d free%%=%d", nthr, ops, free_pct);
     churn("Pow_2_BlockHeap", ops, free_pct,
           [&](int tid) { unsigned i = 1 + (unsigned)(trand(tid) % 17); size_t sz = (size_t(1) << i) + (size_t)(trand(tid) % 3) - 1; if (sz == 0) sz = 1; if (trand(tid) % 50 == 0) sz = 70000 + trand(tid) % 100000;
-                         void* p = ph.allocateBlock(sz); on_alloc("Pow_2_BlockHeap", p, sz, 8, tid); req[(uintptr_t)p] = sz; },
-          [&](void* p, int) { size_t sz = req[(uintptr_t)p]; req.erase((uintptr_t)p); ph.deallocateBlock(p, sz); });
+                         void* p = LIB(ph.allocateBlock(sz)); on_alloc("Pow_2_BlockHeap", p, sz, 8, tid); req[(uintptr_t)p] = sz; },
+          [&](void* p, int) { size_t sz = req[(uintptr_t)p]; req.erase((uintptr_t)p); LIB((ph.deallocateBlock(p, sz), 0)); });
     break; }
   case 2: {
     grt::VariableSizeHeap vh;
@@ -161,8 +172,8 @@ int main() {
             if (trand(tid) % 25 == 0) sz = (2u << 20) - 64 + trand(tid) % 4096;   // around and beyond one page: the second overload must clamp
             bool second = first_overload2 ? true : (trand(tid) % 3 == 0);
             if (sz > (2u << 20) - 64) second = true;   // allocate(size) aborts by design beyond a page
-            if (second) { size_t got = 0; void* p = vh.allocate(sz, got); if (got == 0 || got > sz) vsim_fail("c09.vsh.allocated", "allocate(%zu, allocated) reported %zu bytes", sz, got); on_alloc("VariableSizeHeap::allocate(size,allocated&)", p, got, 8, tid); }
-            else on_alloc("VariableSizeHeap::allocate(size)", vh.allocate(sz), sz, 8, tid);
+            if (second) { size_t got = 0; void* p = LIB(vh.allocate(sz, got)); if (got == 0 || got > sz) vsim_fail("c09.vsh.allocated", "allocate(%zu, allocated) reported %zu bytes", sz, got); on_alloc("VariableSizeHeap::allocate(size,allocated&)", p, got, 8, tid); }
+            else on_alloc("VariableSizeHeap::allocate(size)", LIB(vh.allocate(sz)), sz, 8, tid);
           },
           [&](void*, int) {});
     vh.clear(); live.clear(); live_list.clear();
@@ -173,15 +184,15 @@ int main() {
     size_t ps = grt::pagePoolSize();
     int cap_pages = 24;
     churn("pagePool", ops, free_pct,
-          [&](int tid) { if ((int)live.size() >= cap_pages) return; on_alloc("pagePoolAlloc", grt::pagePoolAlloc(), ps, 2u << 20, tid); },
-          [&](void* p, int) { grt::pagePoolFree(p); });
+          [&](int tid) { if ((int)live.size() >= cap_pages) return; on_alloc("pagePoolAlloc", LIB(grt::pagePoolAlloc()), ps, 2u << 20, tid); },
+          [&](void* p, int) { LIB((grt::pagePoolFree(p), 0)); });
     while (!live_list.empty()) { uintptr_t a = pick_live(0); on_free("pagePool", a); grt::pagePoolFree((void*)a); }
     break; }
   case 4: {
     vsim_note("plan", "threads=%d", nthr);
     int rounds = (int)wl_range(1, 4);
     // random part: capacity model keeps the sum of rounded live sizes far below the 2MB area
-    galois::on_each([&](unsigned tid, unsigned) {
+    par([&](unsigned tid, unsigned) {
       for (int r = 0; r < rounds; r++) {
         switch (trand(tid) % 7) {
         case 0: PTS<1>::run(tid, 1); break; case 1: PTS<100>::run(tid, 1); break; case 2: PTS<128>::run(tid, 1); break; case 3: PTS<129>::run(tid, 1); break;
@@ -226,7 +237,7 @@ int main() {
     int focus_lo = (int)wl_range(0, 8), focus_hi = (int)wl_range(focus_lo, 12);   // per run: a narrow band of sizes makes class collisions likely
     while (done_ops < nops) {
       int actor = (int)wl_range(0, nthr - 1), batch = (int)wl_range(1, 8);
-      galois::on_each([&](unsigned tid, unsigned) {
+      par([&](unsigned tid, unsigned) {
         if ((int)tid != actor) return;
         for (int b = 0; b < batch; b++) {
           bool destroy = !objs.empty() && (int)(trand(tid) % 100) < free_pct + 10;
@@ -238,7 +249,7 @@ int main() {
             else { for (unsigned q = c; q < 30; q++) if (cnt[q] > 0) { from = (int)q; ok = true; break; } }
             if (!ok) { destroy = !objs.empty(); if (!destroy) continue; }
             else {
-              PObj o = MK[k]();
+              PObj o = LIB(MK[k]());
               o.cls = c; o.off = (unsigned)(o.addr[0] - base[0]);
               for (unsigned t = 0; t < maxT; t++) {
                 if (o.addr[t] - base[t] != o.off) vsim_fail("c09.pts.offset", "PerThreadStorage object of %zu bytes: thread %u sees offset %zu, thread 0 offset %u", o.size, t, (size_t)(o.addr[t] - base[t]), o.off);
@@ -250,11 +261,16 @@ int main() {
               vsim_probe_add(from < 0 ? "pts_bump" : (from == (int)c ? "pts_exact" : "pts_split"), 1);
             }
           }
+          if (!objs.empty() && trand(tid) % 5 == 0) {
+            PObj& o = objs[trand(tid) % objs.size()];
+            o.obj = LIB(o.mov(o.obj));
+            vsim_probe_add("pts_moved", 1);
+          }
           if (destroy) {
             size_t i = trand(tid) % objs.size();
             PObj o = objs[i]; objs[i] = objs.back(); objs.pop_back();
             for (uintptr_t a : o.addr) { on_free("PerThreadStorage", a); for (size_t z = 0; z < live_list.size(); z++) if (live_list[z] == a) { live_list[z] = live_list.back(); live_list.pop_back(); break; } }
-            o.del(o.obj);
+            LIB((o.del(o.obj), 0));
             size_t sz = (size_t)1 << o.cls;
             if (o.off + sz == bump) bump = o.off; else cnt[o.cls]++;
           }
@@ -278,7 +294,7 @@ int main() {
     auto reg = [&](void* p, size_t n) { on_alloc("PerThreadStorage", p, n, 128, 0); };
     reg(a2->getRemote(0), 1 << 19); reg(a3->getRemote(0), 1 << 18);
     delete a1;   // 1MB block in the middle of the bump area -> free list of class 2^20
-    galois::on_each([&](unsigned tid, unsigned) {
+    par([&](unsigned tid, unsigned) {
       // concurrent requests all satisfiable from the split remainder (sum <= 1MB): 4 x <=64KB per thread at most 8 threads
       for (int r = 0; r < 3; r++) {
         switch (trand(tid) % 4) { case 0: PTS<300>::run(tid, 1); break; case 1: PTS<5000>::run(tid, 1); break; case 2: PTS<30000>::run(tid, 1); break; default: PTS<(1 << 15)>::run(tid, 1); break; }
